@@ -174,10 +174,47 @@ fn unseal_val(be: Be, vexpr: &str, claims: &str) -> R {
     })
 }
 
+/// validators that are *values of the library's own types* (zero-sized ones included: `HasExpiry`, combinators of them,
+/// unit structs), not the harness's expression interpreter: whether unsealing consults the validator must not depend on
+/// what kind of value the validator is
+struct RejectAll;
+impl Validate for RejectAll {
+    type Claims = paseto_json::RegisteredClaims;
+    fn validate(&self, _: &Self::Claims) -> Result<(), PasetoError> { Err(PasetoError::ClaimsError) }
+}
+struct AcceptAll;
+impl Validate for AcceptAll {
+    type Claims = paseto_json::RegisteredClaims;
+    fn validate(&self, _: &Self::Claims) -> Result<(), PasetoError> { Ok(()) }
+}
+
+fn unseal_zst(be: Be, claims: &str) -> R {
+    use paseto_json::HasExpiry;
+    let c = crate::exec2::parse_claims(claims).ok_or("bad-op")?;
+    with_v!(be, V => {
+        let key = Key::<V, Local>::random().map_err(|_| "keygen".to_string())?;
+        let mk = || -> Result<SealedToken<V, Local, paseto_json::RegisteredClaims>, String> {
+            let tok = UnsealedToken::<V, Local, paseto_json::RegisteredClaims>::new(c.clone()).encrypt(&key).map_err(|e| format!("seal-{}", err_name(&e)))?;
+            tok.to_string().parse().map_err(|_| "reparse".to_string())
+        };
+        let r = |x: Result<_, PasetoError>| -> &'static str { match x { Ok(_) => "ok", Err(PasetoError::ClaimsError) => "claims", Err(_) => "other" } };
+        let a = r(mk()?.decrypt(&key, &HasExpiry).map(|_| ()));
+        let b = r(mk()?.decrypt(&key, &HasExpiry.and_then(HasExpiry)).map(|_| ()));
+        let d = r(mk()?.decrypt(&key, &paseto_core::validation::NoValidation::dangerous_no_validation().and_then(HasExpiry)).map(|_| ()));
+        let e = r(mk()?.decrypt(&key, &RejectAll).map(|_| ()));
+        let f = r(mk()?.decrypt(&key, &AcceptAll).map(|_| ()));
+        let g = r(mk()?.decrypt(&key, &AcceptAll.and_then(RejectAll)).map(|_| ()));
+        let h = r(mk()?.decrypt(&key, &Box::new(HasExpiry)).map(|_| ()));
+        let i = r(mk()?.decrypt(&key, &vec![HasExpiry, HasExpiry]).map(|_| ()));
+        Ok(format!("hasexp={a} and={b} novand={d} reject={e} accept={f} accrej={g} boxed={h} slice={i} exp={}", c.exp.is_some() as u8))
+    })
+}
+
 pub fn exec_more(t: &[&str]) -> R {
     let bad = || "bad-op".to_string();
     let hx = |i: usize| -> Result<Vec<u8>, String> { t.get(i).and_then(|s| unhex(s)).ok_or_else(bad) };
     match t[0] {
+        "o.zst" => unseal_zst(Be::parse(t.get(1).ok_or_else(bad)?).ok_or_else(bad)?, t.get(2).ok_or_else(bad)?),
         "pipe" => pipe(&hx(1)?),
         "pipe.seal" => {
             let n: u8 = t.get(1).ok_or_else(bad)?.parse().map_err(|_| bad())?;
